@@ -96,6 +96,8 @@ class Gen:
             v = r.choice(LNG_POOL) if r.random() < 0.7 else r.randint(0, 100000)
             if not self.o.big_values and v > 100000:
                 v = v % 100000
+            if self.o.tags and 41000 <= v < 50000:
+                v -= 10000          # keep the tag range free of ordinary literals
             return ('lit', '&', v)
         if t == '!':
             v = r.choice(SNG_POOL)
@@ -545,12 +547,9 @@ class Gen:
                 e = self.sexpr(sc, o.expr_depth)
             else:
                 e = self.nexpr(sc, self.numt() if r.random() < 0.4 else t, o.expr_depth)
-            if o.tags:
-                if t == '$':
-                    e = ('bin', '+', ('lit', '$', f'tag{self.tag()}'), e)
-                else:
-                    e = ('bin', '+', ('par', e), ('bin', '*', ('lit', '%', 0), ('lit', '&', self.tag() + 40000)))
-                    # static type may change; assignment converts anyway
+            if o.tags and t != '$':
+                # unique, non-foldable tag: ztz% is never assigned (reads 0), the push& operand names the statement
+                e = ('bin', '+', ('par', e), ('bin', '*', ('var', 'ztz%', '%'), ('lit', '&', self.tag() + 40000)))
             return ['let', lv, e, r.random() < 0.1]
         if p < 0.66:
             return self.print_stmt(sc)
